@@ -73,7 +73,7 @@ func cmdCheck(args []string) int {
 	fs.BoolVar(&o.verbose, "v", false, "verbose")
 	fs.StringVar(&o.keep, "keep", "", "keep SMT files in this directory")
 	fs.StringVar(&o.dump, "dump", "", "dump SSA of this function and exit")
-	fs.IntVar(&o.workers, "j", 16, "parallel solver processes")
+	fs.IntVar(&o.workers, "j", 14, "parallel solver processes")
 	fs.BoolVar(&o.noReplay, "no-replay", false, "do not replay counterexamples (development)")
 	fs.Parse(args)
 	if t := os.Getenv("VERIF_TIER"); t != "" && o.tier == "" {
